@@ -48,7 +48,7 @@ func lsRemotePart(c *vf.Ctx, g *gitx.Git) {
 	stub := filepath.Join(c.Scratch, "stub-upload-pack.sh")
 	c.Must(os.WriteFile(stub, []byte("#!/bin/sh\ncat \"$C35_ADV\"\ncat >/dev/null\n"), 0o755), "write stub")
 	dir := c.TempDir("lsremote")
-	n := c.N(130, 1800)
+	n := c.N(110, 1500)
 	vf.Parallel(n, 6, func(i int) {
 		m := genAdv(c.Rand("adv-git", i), false)
 		v := m.value()
@@ -136,6 +136,13 @@ func lsRemotePart(c *vf.Ctx, g *gitx.Git) {
 }
 
 func featClass(f []string) string {
+	has := map[string]bool{}
+	for _, x := range f {
+		has[x] = true
+	}
+	if has["no-refs"] && has["sha256"] {
+		return "empty-sha256-advertisement"
+	}
 	var keep []string
 	for _, x := range f {
 		switch x {
@@ -224,17 +231,33 @@ func readSection(b []byte) (lines [][]byte, rest []byte, err error) {
 // ---------- (b) git receive-pack applies go-git's update request ----------
 
 func receivePackPart(c *vf.Ctx, g *gitx.Git, tmpl string, commits []string) {
-	n := c.N(50, 700)
-	vf.Parallel(n, 6, func(i int) {
-		r := c.Rand("recv", i)
-		repo := filepath.Join(c.Scratch, fmt.Sprintf("recv%d.git", i))
+	n := c.N(40, 600)
+	const workers = 5
+	repos := make(chan string, workers)
+	for w := 0; w < workers; w++ {
+		repo := filepath.Join(c.Scratch, fmt.Sprintf("recv%d.git", w))
 		if err := gitx.CopyDir(tmpl, repo); err != nil {
 			c.Broken("copy template: %v", err)
 			return
 		}
-		defer os.RemoveAll(repo)
-		// initial state
-		names := refNames(r, 2+r.Intn(6))
+		repos <- repo
+	}
+	vf.Parallel(n, workers, func(i int) {
+		r := c.Rand("recv", i)
+		repo := <-repos
+		defer func() { repos <- repo }()
+		// initial state; every case works in its own namespace of the worker's repository
+		var names []string
+		for _, nm := range refNames(r, 2+r.Intn(6)) {
+			p := strings.SplitN(nm, "/", 3)
+			if len(p) < 3 {
+				continue // receive-pack refuses one-level names under refs/ ("funny refname")
+			}
+			names = append(names, fmt.Sprintf("%s/%s/case%d/%s", p[0], p[1], i, p[2]))
+		}
+		if len(names) == 0 {
+			return
+		}
 		state := map[string]string{}
 		var stdin bytes.Buffer
 		for _, nm := range names {
@@ -331,7 +354,7 @@ func receivePackPart(c *vf.Ctx, g *gitx.Git, tmpl string, commits []string) {
 		if kinds["create"] || kinds["update"] {
 			in = append(in, emptyPack()...)
 		}
-		res := g.RunIn(repo, in, "-c", "receive.advertisePushOptions=true", "receive-pack", repo)
+		res := g.RunIn(repo, in, "-c", "receive.advertisePushOptions=true", "-c", "receive.denyDeleteCurrent=ignore", "receive-pack", repo)
 		if res.Timeout || res.Code == -1 {
 			c.Inconclusive("git receive-pack did not run: %s", res)
 			return
@@ -368,7 +391,7 @@ func receivePackPart(c *vf.Ctx, g *gitx.Git, tmpl string, commits []string) {
 		fe := g.Run(repo, "for-each-ref", "--format=%(objectname) %(refname)")
 		got := map[string]string{}
 		for _, ln := range strings.Split(strings.TrimSpace(string(fe.Out)), "\n") {
-			if f := strings.SplitN(ln, " ", 2); len(f) == 2 {
+			if f := strings.SplitN(ln, " ", 2); len(f) == 2 && strings.Contains(f[1], fmt.Sprintf("/case%d/", i)) {
 				got[f[1]] = f[0]
 			}
 		}
@@ -394,7 +417,7 @@ func receivePackPart(c *vf.Ctx, g *gitx.Git, tmpl string, commits []string) {
 // ---------- (c) git upload-pack answers go-git's upload request ----------
 
 func uploadPackPart(c *vf.Ctx, g *gitx.Git, tmpl string, commits []string) {
-	n := c.N(50, 700)
+	n := c.N(40, 600)
 	repo := filepath.Join(c.Scratch, "upload.git")
 	if err := gitx.CopyDir(tmpl, repo); err != nil {
 		c.Broken("copy template: %v", err)
